@@ -451,3 +451,69 @@ def classify(items, walkres=None):
     if any(it[0] in ('func', 'proc') for it in items):
         cl.add('has-func/proc')
     return cl
+
+
+# ---------------------------------------------------------------------------
+# "Unusual" assembly sources (structured half of C10)
+# ---------------------------------------------------------------------------
+
+UNUSUAL = ['undefined-label', 'duplicate-label', 'keyword-label', 'huge-literal', 'minus-at-eof', 'opcode-at-eof', 'opr-anything', 'stray-operand',
+           'func-no-name', 'func-number', 'unaligned-abs', 'self-reference', 'only-labels', 'empty', 'comment-eof', 'label-underscore', 'negative-data',
+           'many-labels', 'long-identifier', 'nul-and-high-bytes']
+
+
+def gen_unusual(r, want=None):
+    items = gen_random_program(r)
+    text = render(items, r.randint(0, 10))
+    m = want or r.choice(UNUSUAL)
+    lines = text.splitlines()
+    pos = r.randint(0, len(lines))
+    if m == 'undefined-label':
+        lines.insert(pos, '%s nowhere%d' % (r.choice(REL + ABS), r.randint(0, 3)))
+    elif m == 'duplicate-label':
+        labs = [it[1] for it in items if it[0] in ('label', 'func', 'proc')] or ['L0']
+        lines.insert(pos, r.choice(labs))
+    elif m == 'keyword-label':
+        lines.insert(pos, r.choice(['ADD', 'DATA', 'SVC', 'BR', 'OPR', 'FUNC', 'PROC', 'LDAM']))
+    elif m == 'huge-literal':
+        lines.insert(pos, '%s %s%s' % (r.choice(IMM + ['DATA']), r.choice(['', '-']), ''.join(r.choice('0123456789') for _ in range(r.randint(10, 30))).lstrip('0') or '7'))
+    elif m == 'minus-at-eof':
+        lines.append(r.choice(['LDAC -', 'DATA -', '-']))
+        return '\n'.join(lines)
+    elif m == 'opcode-at-eof':
+        lines.append(r.choice(IMM + ['OPR', 'DATA']))
+        return '\n'.join(lines) + r.choice(['', '\n', ' '])
+    elif m == 'opr-anything':
+        lines.insert(pos, 'OPR ' + r.choice(['5', 'LDAM', 'x', '-', 'OPR', 'DATA', '# c']))
+    elif m == 'stray-operand':
+        lines.insert(pos, r.choice(['5', 'BR 1 2', '- 3', 'L0 7', 'DATA 1 2 3', '. ,', '"s"']))
+    elif m == 'func-no-name':
+        lines.append(r.choice(['FUNC', 'PROC']))
+        return '\n'.join(lines) + r.choice(['', '\n'])
+    elif m == 'func-number':
+        lines.insert(pos, r.choice(['FUNC 5', 'PROC -', 'FUNC BR', 'PROC DATA']))
+    elif m == 'unaligned-abs':
+        lines.insert(0, 'OPR ADD\nU9\nOPR ADD\n%s U9' % r.choice(ABS))
+    elif m == 'self-reference':
+        lines.insert(pos, 'S8\n%s S8' % r.choice(REL))
+    elif m == 'only-labels':
+        return '\n'.join('L%d' % i for i in range(r.randint(1, 50))) + '\n'
+    elif m == 'empty':
+        return r.choice(['', '\n', '   ', '#', '# c\n'])
+    elif m == 'comment-eof':
+        lines.append('# no newline at the end')
+        return '\n'.join(lines)
+    elif m == 'label-underscore':
+        lines.insert(pos, r.choice(['a_b', 'x_', 'A_1_2']))
+        lines.insert(pos, 'BR a_b')
+    elif m == 'negative-data':
+        lines.insert(pos, 'DATA -%d' % r.choice([1, 2**31, 2**31 + 1, 2**32 - 1, 2**32]))
+    elif m == 'many-labels':
+        n = r.randint(100, 400)
+        return '\n'.join('M%d\nBR M%d' % (i, (i * 7 + 3) % n) for i in range(n)) + '\n'
+    elif m == 'long-identifier':
+        nm = 'Q' + 'z' * r.choice([100, 1000, 5000])
+        lines.insert(pos, nm + '\nBR ' + nm)
+    elif m == 'nul-and-high-bytes':
+        lines.insert(pos, r.choice(['\x00', '\xff', 'BR \xe9', 'DATA 1\x00', '\x7f']))
+    return '\n'.join(lines) + '\n'
